@@ -116,10 +116,10 @@ def judge(w, loaded, model, contracts, call, tid, meta) -> None:
     hub = loaded.hub
     c = contracts[tid]
     form = c.get("err", "default")
-    for mode in (("normal", "nonexc") if form in ("factory", "method") else ("normal",)):
+    for mode in (("normal", "nonexc", w.rng.choice(("nonexc-none", "nonexc-none", "nonexc-class", "nonexc-zero"))) if form in ("factory", "method") else ("normal",)):
         truth = {tid: ["F", w.rng.randrange(11)]}
-        if mode == "nonexc":
-            truth["error:" + tid] = "nonexc"
+        if mode.startswith("nonexc"):
+            truth["error:" + tid] = mode
         if meta["role"] == "inv" and call["target"] == "member":
             # let the invariant hold before the call and fail after it
             truth[tid] = {"seq": [["T", 1], ["F", w.rng.randrange(11)]]}
@@ -138,7 +138,7 @@ def judge(w, loaded, model, contracts, call, tid, meta) -> None:
         w.count("violations_raised")
         exc = obs.exc
         err_events = [e for e in obs.events if e.kind == "error"]
-        if mode == "nonexc":
+        if mode.startswith("nonexc"):
             w.count("factory_calls", len(err_events))
             if type(exc) is not TypeError:
                 w.violation("C09/non-exception-from-factory-not-TypeError", "factory returned a non-exception; caller got {}: {}".format(
